@@ -67,9 +67,9 @@ type tierCfg struct {
 var tiers = map[string]tierCfg{
 	"C04": {QuickRuns: 64000, ThoroughRuns: 3200000, Workers: 16, Enum: true, EnumQuickStride: 1},
 	"C08": {QuickRuns: 6400, ThoroughRuns: 160000, Workers: 16},
-	"C12": {QuickRuns: 4800, ThoroughRuns: 160000, Workers: 16},
-	"C20": {QuickRuns: 1600, ThoroughRuns: 80000, Workers: 16},
-	"C13": {QuickRuns: 3200, ThoroughRuns: 160000, Workers: 16},
+	"C12": {QuickRuns: 9600, ThoroughRuns: 160000, Workers: 16},
+	"C20": {QuickRuns: 8000, ThoroughRuns: 80000, Workers: 16},
+	"C13": {QuickRuns: 6400, ThoroughRuns: 160000, Workers: 16},
 	"C14": {QuickRuns: 1600, ThoroughRuns: 60000, Workers: 8},
 	"C18": {QuickRuns: 32000, ThoroughRuns: 1600000, Workers: 16, Race: true, RaceQuick: 64, RaceThorough: 4000},
 	"C19": {QuickRuns: 48000, ThoroughRuns: 1600000, Workers: 16},
